@@ -59,7 +59,33 @@ def gen_plan(seed, tier):
     rng = random.Random(derive_seed(seed, "c07plan"))
     if seed % 40 == 0:
         return gen_sweep(seed, rng, tier)
+    if seed % 40 in (1, 2, 3):
+        return gen_refrace(seed, rng, tier)
     return gen_gitfile(seed, rng, tier)
+
+
+def gen_refrace(seed, rng, tier):
+    """The same protocol one level up: 2-3 processes run dulwich's own ref
+    routines on one ref; the ref file is the protected file."""
+    pol = rng.choice(["uniform", "burst", "pct", "targeted", "targeted"])
+    sched = {"policy": pol}
+    if pol == "burst":
+        sched["p_switch"] = rng.choice([0.05, 0.15, 0.3])
+    if pol == "pct":
+        sched["depth"] = rng.choice([1, 2, 3])
+        sched["est_steps"] = 60
+    actors = []
+    for i in range(rng.choice([2, 2, 3])):
+        actors.append({"name": f"p{i}", "ops": [
+            rng.choice(["add", "add", "set", "cas_init", "cas_zero", "rm",
+                        "del", "locked_set"])
+            for _ in range(rng.randint(1, 2))]})
+    return {"kind": "refrace", "seed": seed, "sched": sched,
+            "actors": actors, "init": rng.choice(["absent", "absent",
+                                                  "loose", "packed"]),
+            "reader": rng.random() < 0.6,
+            "clock": {"step_lo_ns": 0,
+                      "step_hi_ns": rng.choice([0, 1000, 10**6])}}
 
 
 def gen_gitfile(seed, rng, tier):
@@ -177,6 +203,133 @@ class LockMonitor:
                       f"expected {None if want is None else want[:80]!r}")
         self.committed.add(data)
         self.current = data
+
+
+class RefLockMonitor(LockMonitor):
+    """LockMonitor for a loose ref file: the committed content must be one
+    complete value line; the lock holder may unlink the ref (a delete)."""
+
+    def __init__(self, sim, root, rel):
+        super().__init__(sim, root, b"")
+        self.lock_rel = rel + ".lock"
+        self.tgt_rel = rel
+        self.tgt = os.path.join(root, rel)
+
+    def post(self, sim, a, call, rel, info):
+        if rel == self.tgt_rel:
+            if call in ("open_w", "kwrite", "truncate", "ftruncate"):
+                self.viol("in-place-write", a, call,
+                          f"{a.name} modified the ref file in place")
+            elif call == "unlink" and not (self.exists and
+                                           self.owner == a.name):
+                self.viol("unlinked-without-lock", a, call,
+                          f"{a.name} removed the ref file without holding "
+                          f"its lock (owner: {self.owner})")
+            return
+        super().post(sim, a, call, rel, info)
+
+    def on_commit(self, a):
+        data = util.read_real(self.tgt)
+        if self.last_committer not in (None, a.name):
+            self.sim.stat("probe:commit_after_foreign_commit")
+        self.last_committer = a.name
+        if not _complete_ref(data):
+            self.viol("torn-content", a, "replace",
+                      f"ref file after commit by {a.name}: {data!r:.80}")
+
+
+def _complete_ref(data):
+    import re
+    return data is not None and re.fullmatch(
+        rb"([0-9a-f]{40}|ref: [^\n]+)\n", data) is not None
+
+
+def run_refrace(plan):
+    from dulwich.file import FileLocked
+    from dulwich.refs import locked_ref
+    from dulwich.repo import Repo
+    sim = Sim(seed=plan["seed"], sched=plan["sched"], clock=plan.get("clock"),
+              step_cap=20000)
+    name = b"refs/heads/x"
+    rel = "repo/.git/refs/heads/x"
+    v0 = b"%040x" % 1
+    with util.Sandbox() as root:
+        fs = simfs.FS(root, sim, {})
+        simfs.activate(fs)
+        rp = os.path.join(root, "repo")
+        r0 = util.init_repo(rp)
+        if plan["init"] != "absent":
+            r0.refs[name] = v0
+            if plan["init"] == "packed":
+                r0.refs.pack_refs(all=True)
+        r0.close()
+        mon = RefLockMonitor(sim, root, rel)
+        full = os.path.join(root, rel)
+
+        def pusher(spec, idx):
+            def body(a):
+                r = Repo(rp)
+                try:
+                    for j, op in enumerate(spec["ops"]):
+                        val = b"%040x" % (100 + idx * 10 + j)
+                        try:
+                            if op == "add":
+                                r.refs.add_if_new(name, val)
+                            elif op == "set":
+                                r.refs[name] = val
+                            elif op == "cas_init":
+                                r.refs.set_if_equals(name, v0, val)
+                            elif op == "cas_zero":
+                                r.refs.set_if_equals(name, b"0" * 40, val)
+                            elif op == "rm":
+                                r.refs.remove_if_equals(name, v0)
+                            elif op == "del":
+                                r.refs.remove_if_equals(name, None)
+                            elif op == "locked_set":
+                                with locked_ref(r.refs, name) as lr:
+                                    if lr.ensure_equals(v0) or \
+                                            lr.get() is None:
+                                        lr.set(val)
+                        except FileLocked:
+                            sim.stat("probe:filelocked_seen")
+                        except (FileNotFoundError, KeyError):
+                            # locked_ref on a ref whose directory is gone;
+                            # deleting what is not there
+                            sim.stat("refrace_refused")
+                finally:
+                    r.close()
+            return body
+
+        def reader(a):
+            for _ in range(4):
+                sim.yield_point("reader")
+                data = util.read_real(full) if R.lexists(full) else None
+                if data is not None and not _complete_ref(data):
+                    sim.violation("C07/torn-read/read",
+                                  f"a reader saw the ref file as {data!r:.60}")
+        for idx, spec in enumerate(plan["actors"]):
+            sim.actor(spec["name"], pusher(spec, idx))
+        if plan["reader"]:
+            sim.actor("r0", reader)
+        sim.run()
+        gc.collect()
+        if sim.abort_reason:
+            sim.violation(f"C07/{sim.abort_reason}/refrace", "")
+        for a in sim.actors:
+            if a.exc is not None:
+                sim.violation(f"C07/unexpected-exception/refrace/"
+                              f"{type(a.exc).__name__}", repr(a.exc)[:300])
+        if R.lexists(full + ".lock"):
+            sim.violation("C07/lock-leaked/refrace",
+                          "the ref's lock file is left behind")
+        data = util.read_real(full) if R.lexists(full) else None
+        if data is not None and not _complete_ref(data):
+            sim.violation("C07/torn-content/final",
+                          f"ref file at the end: {data!r:.60}")
+        simfs.deactivate()
+        res = finish(sim, plan, fs)
+    res["stats"]["kind:refrace"] = 1
+    return res
 
 
 def run_gitfile(plan):
@@ -717,6 +870,8 @@ def _sweep_filter(call, rel):
 
 
 def run_plan(plan):
+    if plan["kind"] == "refrace":
+        return run_refrace(plan)
     if plan["kind"] == "sweep":
         return run_sweep(plan)
     return run_gitfile(plan)
@@ -735,6 +890,17 @@ def shrink(plan):
                 p = json.loads(json.dumps(plan))
                 p["ks"] = part
                 yield p
+        return
+    if plan["kind"] == "refrace":
+        for i, a in enumerate(plan["actors"]):
+            for j in range(len(a["ops"])):
+                p = json.loads(json.dumps(plan))
+                del p["actors"][i]["ops"][j]
+                yield p
+        if plan["reader"]:
+            p = json.loads(json.dumps(plan))
+            p["reader"] = False
+            yield p
         return
     acts = plan["actors"]
     # drop an actor (keep indices stable by replacing with an empty role)
